@@ -3,7 +3,7 @@ ENTRY = dict(
     level="proof",
     level_text=("Lean 4: an executable small-step model of one host activity (task or sub-process) with its harness, "
                 "its boundary listeners (catch event + flow), the cancellation once, the activity's request counter and "
-                "cancel verdict, parametric in five extracted facts; every label is one atomic step and theorems quantify "
+                "cancel verdict, the order of the harness's two activation statements, parametric in six extracted facts (two more are hard-wired and asserted); every label is one atomic step and theorems quantify "
                 "over all numbers / kinds of boundary events and ALL schedules (runs of any length). Proved: the exception "
                 "flow of a boundary event never continues twice and, once its event was matched, continues exactly once at "
                 "quiescence (under the cancellation once; kernel-checked witness of a listener stuck forever without it); "
@@ -13,19 +13,21 @@ ENTRY = dict(
                 "events that reached the boundary event (so 'once per event' holds exactly when nothing was dropped; a "
                 "second event on a non-interrupting boundary event is dropped: witness); after completion no run changes "
                 "the state (under the active gate; witness without it) and the listeners' wait-group contribution is zero "
-                "iff every listener fired (D8 witness; zero always if the listener flows do not share the wait group). "
+                "iff every listener fired (D8 witness; zero always if the listener flows do not share the wait group); an "
+                "interrupting event between the harness's active:=1 and the activity's first message strands the host's token "
+                "(witness, replayed deterministically through a schedule point) whereas with the two statements in the other "
+                "order the host is requested on every schedule (dichotomy in the extracted order). "
                 "Tied to the code by replaying real engine runs through the model: hosts task / sub-process x 1..2 boundary "
                 "events of either kind x every interleaving of {deliver e1, deliver e2, answer} up to length 4 incl. "
                 "event-before-activation, repeats, events after completion, back-to-back batches (all interleavings of the "
-                "model's internal steps are explored and the engine's outcome must be one of them) and three enforced "
+                "model's internal steps are explored and the engine's outcome must be one of them) and four enforced "
                 "schedules through verifhook points; the C10 reference predicate is evaluated on every recorded history."),
     level_note=("partial: C10 as stated is FALSE of the code and so of the faithful model (C10_fails); what is proved is the "
                 "negation with witnesses plus the partial statements under their exact excluding hypotheses "
-                "(interrupting_partial, non_interrupting_partial, inert_partial, inert_no_reaction). Model abstractions: one "
-                "activation of the host (no loop back into it); harnessTake atomic (active:=1 and activity.NextAction not "
-                "separated); channel capacities not modelled (C11); each boundary event listens to its own signal; the "
+                "(interrupting_partial, non_interrupting_partial, inert_partial, inert_no_reaction, host_requested_partial). "
+                "Model abstractions: one activation of the host (no loop back into it); channel capacities not modelled (C11); each boundary event listens to its own signal; the "
                 "paths behind the host / boundary events are abstracted to request counters. Goroutine schedules of the real "
-                "engine are sampled (back-to-back batches, three enforced schedules), not quantified; the quantification "
+                "engine are sampled (back-to-back batches, four enforced schedules), not quantified; the quantification "
                 "over schedules is a theorem about the model. trusted: Lean kernel, extractor, harness, whole-process "
                 "quiescence detection."),
     technique="Lean 4 proof (inductive invariants over all schedules of a small-step model, kernel-checked witnesses) + "
@@ -39,10 +41,10 @@ ENTRY = dict(
           "{d1[,d2], a} of length <= 4 with at most one answer, P answered first or after the first delivery (event before "
           "activation); quick tier: all up to length 3, a third of length 4 for two boundary events; modes wait "
           "(quiescence before every action), nowait (actions after P back-to-back), nowaitall (P included: the event races "
-          "the activation), hold-forward / hold-listener / hold-catch (a goroutine of the engine parked at "
-          "tasktrace.process.forwarding / flow.action / catch.process_event). Every Deliver / Do under a deadline. After "
+          "the activation), hold-forward / hold-listener / hold-catch / hold-activation (a goroutine of the engine parked at "
+          "tasktrace.process.forwarding / flow.action / catch.process_event / harness.before_next_action). Every Deliver / Do under a deadline. After "
           "the schedule every request on the normal and exception paths is answered and WaitUntilComplete is recorded. The "
-          "driver keeps the SET of model states compatible with the recorded requests (closed under internal steps; at "
+          "driver keeps the SET of model states compatible with the recorded requests and cancel traces (closed under internal steps; at "
           "quiescence only states without enabled internal step) - an empty set or a different completion verdict is a "
           "disagreement - and evaluates the reference of Bpmn.Spec.Boundary (racing actions in every order); "
           "non-trivial = the normal flow or an exception flow continued; distinct by (host, kinds, mode, schedule, history)"),
